@@ -1,5 +1,6 @@
 import PicoVerif.Spec.LuaLex
 import PicoVerif.Props.C06
+import PicoVerif.Lemmas.C07
 /-! C07 — the lexer agrees with the PICO-8/Lua lexical grammar on kinds, extents, values, positions. -/
 namespace Pico.C07
 open Pico.Lex
@@ -18,7 +19,44 @@ theorem literals_prefix_ordered : prefixOrdered litBlock = true := by decide +ke
 /-- general lemma: in a prefix-ordered literal table the first matching literal is the longest one -/
 theorem ordered_first_is_longest (lits : List Bytes) (s l : Bytes) (h : prefixOrdered lits = true)
     (hf : lits.find? (fun x => x.isPrefixOf s) = some l) : ∀ l' ∈ lits, l'.isPrefixOf s = true → l'.length ≤ l.length := by
-  sorry
+  induction lits with
+  | nil => simp at hf
+  | cons a rest ih =>
+    simp only [prefixOrdered, Bool.and_eq_true, List.all_eq_true] at h
+    intro l' hl' hp
+    rw [List.find?_cons] at hf
+    split at hf
+    · next ha =>
+      cases hf
+      rcases List.mem_cons.mp hl' with rfl | hm
+      · exact Nat.le_refl _
+      · have h1 := h.1 l' hm
+        refine Nat.le_of_not_lt fun hlt => ?_
+        have hpre : l <+: l' :=
+          List.prefix_of_prefix_length_le (List.isPrefixOf_iff_prefix.mp ha) (List.isPrefixOf_iff_prefix.mp hp) (by omega)
+        simp [List.isPrefixOf_iff_prefix.mpr hpre] at h1
+        omega
+    · next ha =>
+      rcases List.mem_cons.mp hl' with rfl | hm
+      · simp [ha] at hp
+      · exact ih h.2 hf l' hm hp
+
+/-- a sub-table of a prefix-ordered table is prefix-ordered -/
+theorem prefixOrdered_sublist {l₁ l₂ : List Bytes} (hs : l₁.Sublist l₂) (h : prefixOrdered l₂ = true) :
+    prefixOrdered l₁ = true := by
+  induction hs with
+  | slnil => rfl
+  | cons a _ ih =>
+    simp only [prefixOrdered, Bool.and_eq_true] at h
+    exact ih h.2
+  | cons_cons a hs ih =>
+    simp only [prefixOrdered, Bool.and_eq_true, List.all_eq_true] at h ⊢
+    exact ⟨fun l' hl' => h.1 l' (hs.subset hl'), ih h.2⟩
+
+/-- the symbols of the grammar are a sub-table of the literal block, so their first match is their longest -/
+theorem symbols_first_longest : C07L.FirstLongest Spec.Lex.symbolSet := fun s l hf =>
+  ordered_first_is_longest _ s l
+    (prefixOrdered_sublist (by decide +kernel : Spec.Lex.symbolSet.Sublist litBlock) literals_prefix_ordered) hf
 
 /-- `s` starts a long bracket `[=*[` -/
 def longOpen (s : Bytes) : Bool :=
@@ -35,17 +73,23 @@ def PlainStart (s : Bytes) : Prop :=
 theorem first_is_longest (s : Bytes) (h : PlainStart s) :
     (matchOne Gen.matcherShape s).map (fun kn => (kn.1, kn.2)) =
       (Spec.Lex.lexOne s).map (fun tn => (tn.1.kind, tn.2)) := by
-  sorry
+  obtain ⟨h0, hq1, hq2, hlo⟩ := h
+  match s with
+  | [] => decide +kernel
+  | c :: r =>
+    refine C07L.core symbols_first_longest c r (by simpa using hq1) (by simpa using hq2) h0 ?_
+    rintro rfl
+    simpa [longOpen] using hlo
 
 /-- **C07.lex_agrees_spec**: whenever the reference grammar accepts a source, the lexer returns exactly the
 grammar's token list: same boundaries (longest match), kinds, decoded string bytes, and line/column. -/
 theorem lex_agrees_spec (src : Bytes) (ts : List Tok) (h : Spec.Lex.lexSource src = some ts) :
-    lex [src] = .ok ts := by
-  sorry
+    lex [src] = .ok ts :=
+  C07L.lex_agrees symbols_first_longest (fun q s v n fuel fuel' => C06.decode_agrees q s v n fuel fuel') src ts h
 
 /-- **C07.chunk_independent**: tokenisation does not depend on whether the text arrives as one chunk
 (.p8.png path) or split at line ends (.p8 path). -/
-theorem chunk_independent (src : Bytes) : lex (splitLines src) = lex [src] := by
-  sorry
+theorem chunk_independent (src : Bytes) : lex (splitLines src) = lex [src] :=
+  C07L.chunk_indep src
 
 end Pico.C07
